@@ -1447,8 +1447,8 @@ def run(ck):
     lips(ck, intvol)
     from nipy.algorithms.statistics import rft
     rft_algebra(ck, rft)
+    rft_hermite(ck, rft)     # before the density oracles: the most specific sub-check reports first (the kit keeps 25 signatures)
     rft_densities(ck, rft)
     rft_repeat(ck, rft)
     rft_reference(ck, rft)
     rft_helpers(ck, rft)
-    rft_hermite(ck, rft)
